@@ -148,7 +148,7 @@ CLAIMED = {
              "(`extern_abi`). The legality model is compared with the compiler on every type (9 leaves x 7 constructors, "
              "depth 2 quick / 3 thorough) in 8 declaration positions, random dependency graphs against two independent cycle "
              "checks, generated programs under random permutations of their declarations, and fixed duplicate / word-size / "
-             "non-constant-length cases. Partial: behavioural order independence of whole programs is exercised, not proved.",
+             "non-constant-length cases. Behaviour: `Sem.function_order_irrelevant` - permuting the functions of a program leaves the source interpreter's result unchanged at every fuel (the interpreter reaches the list only through lookups by name). Partial: the order of constants and structures (dependency ordering of the compiler) is exercised through permutations of generated programs, not proved at the level of behaviour.",
         note="Trusted: Lean kernel, transcription of value_type.rs / typer.rs legality and of found_container_1 (checked "
              "exhaustively / on random graphs), the interpreter (C01). Two panics were found here and fixed in /repo "
              "(nested array-likes in extern signatures; pointer to a cyclical structure).",
